@@ -76,6 +76,18 @@ def selection(ctx):
             ok = call[0] == "call" and call[1] == ("n", "assign") and len(call[2]) == 2 and call[2][0] == ("i", LHS, b) and call[2][1] == ("i", RHS, b)
             ctx.check(ok, "C40.recursion-arguments", e.site, f"assign.recursion[{decided}]", found=tstr(call)[:160], required="assign(lhs[name], rhs[name], ...): the same field of both sides, left stays left")
             if ok:
+                # strictness of a side: it is a value (View) and the selected field is not a plain python int
+                kws = dict(call[3])
+                for side, root in (("lhs_strict", LHS), ("rhs_strict", RHS)):
+                    want_s = to_formula(pat_with("isinstance(ROOT, ValueLike) and not isinstance(ROOT[NAME], int)", root, b))
+                    got_s = to_formula(kws[side]) if side in kws else False
+                    ctx.check(side in kws and equivalent(got_s, want_s) is None, "C40.recursion-strictness", e.site, f"assign.recursion.{side}[{decided}]", found=tstr(kws.get(side, ("c", None)))[:120],
+                              required=f"{side} = the side is a value and its field of the same name is not a python int (fields of a View have explicit shapes)")
+            # the structured branch is entered only when both operands have fields
+            both = f_and(f_not(A(mk_op("is", ("c", None), LF))), f_not(A(mk_op("is", ("c", None), RF))))
+            ctx.check(implies(_cfg_formula(ex), both) is None, "C40.structured-branch", e.site, f"assign.structured-branch[{decided}]", found=fstr(_cfg_formula(ex))[:160],
+                      required="fields are matched only when both lhs_fields and rhs_fields are not None", nontrivial=False)
+            if ok:
                 kw = dict(call[3])
                 sub = kw.get("fields")
                 is_map = cfg.get(("call", ("n", "isinstance"), (FIELDS, ("n", "Mapping")), ()))
@@ -104,9 +116,15 @@ def selection(ctx):
     emp = [(ex, r) for ex, r in rs if not loops(r) and pmatch("ValueError(Q_m)", r.exc) and "no common fields" in tstr(r.exc)]
     ok = bool(emp)
     for ex, r in emp:
-        g = py_guard(r)
+        g = f_and(py_guard(r), _cfg_formula(ex))
         ats = atoms_of(g)
-        ok = ok and len(ats) >= 3
+        # raised exactly for an empty selection over operands that do have fields
+        fs = [a for a in ats if a[0] == "v" and ex.vardefs.get(a[2], ("x",))[0] == "call" and ex.vardefs[a[2]][1] == ("n", "assign_arg_fields")]
+        nonempty = f_or(*[A(a) for a in fs]) if fs else False
+        # the selected-names term: the atom whose negation the guard requires (an operation over the field sets, or set(fields))
+        cand = [a for a in ats if a not in fs and (a[0] == "op" and a[1] in ("&", "|") or pmatch("set(Q_f)", a) is not None)]
+        sel_empty = f_and(*[f_not(A(a)) for a in cand]) if cand else True
+        ok = ok and len(fs) == 2 and implies(g, nonempty) is None and (implies(g, sel_empty) is None) and (bool(cand) or any(implies(g, f_not(A(a))) is None for a in fs))
     ctx.check(ok, "C40.empty-selection-raises", emp[0][1].site if emp else fn.site, "assign.empty-selection", found=f"{len(emp)} raise(s)", required="an empty selection over non-empty structures raises", nontrivial=False)
 
 
@@ -148,7 +166,7 @@ def leaf(ctx):
             if val[0] == "loopvar":
                 test = ex.loopdefs.get(("while", val[2]), (None, None))[0]
                 init, step = ex.loopdefs[(val[1], val[2])]
-                okw = test is not None and has("1 == len(Q_f)", test) and step is not None and pmatch("Q_v[next(iter(Q_f))]", step) is not None and pmatch("Q_v[next(iter(Q_f))]", step)["v"] == val
+                okw = test is not None and has("1 == len(Q_f)", test) and all(implies(to_formula(test), f_not(A(mk_op("is", ("c", None), m_["f"])))) is None for m_ in find_all("1 == len(Q_f)", test)) and step is not None and pmatch("Q_v[next(iter(Q_f))]", step) is not None and pmatch("Q_v[next(iter(Q_f))]", step)["v"] == val
                 ctx.check(okw, "C40.singleton-unwrapping", ys[0].site, f"assign.leaf.unwrap[{tstr(root)}]", found=f"while {tstr(test) if test else '?'}: {tstr(step) if step else '?'}",
                           required="only a structure with exactly one field is replaced by that field", nontrivial=False)
         # the shape comparison is lhs against rhs, and the statement is not reached when it fails under the strict condition
@@ -195,6 +213,14 @@ def leaf(ctx):
     ctx.check(ok, "C40.shape-mismatch-raises", rs[0][1].site if rs else fn.site, "assign.shape-mismatch", found=f"{len(rs)} raise(s)", required="a shape mismatch raises when either side is a ValueCastable or both sides are strict / have explicit shapes")
     for text, what in (("Fields on assigning non-structures", "an explicit field selection on non-structures"), ("Unsupported assignment", "a non-value operand")):
         rr = [(ex, r) for ex, r in fn.facts(Raise) if text in tstr(r.exc)]
+        FIELDS = ("p", fn.fi.qualname, "kw:fields", "fields")
+        for ex, r in rr:
+            g = f_and(py_guard(r), _cfg_formula(ex))
+            if text.startswith("Fields"):
+                need = f_not(A(("call", ("n", "isinstance"), (FIELDS, ("n", "AssignType")), ())))
+            else:
+                need = f_or(f_not(A(("call", ("n", "isinstance"), (LHS, ("n", "ValueLike")), ()))), f_not(A(("call", ("n", "isinstance"), (RHS, ("n", "ValueLike")), ()))))
+            ctx.check(implies(g, need) is None, "C40.leaf-rejections", r.site, f"assign.leaf.reject-guard[{text[:20]}]", found=fstr(g)[:200], required=f"raised only for {what}", nontrivial=False)
         ctx.check(bool(rr), "C40.leaf-rejections", rr[0][1].site if rr else fn.site, f"assign.leaf.reject[{text[:20]}]", found=f"{len(rr)} raise(s)", required=f"{what} is rejected", nontrivial=False)
 
 
@@ -245,6 +271,31 @@ def arg_fields(ctx):
     ctx.check(set(table) <= seen, "C40.field-sets-total", fn.site, "assign_arg_fields.cases", found=f"{sorted(x for x in seen if x)}", required="all five kinds of structured operands are recognised")
 
 
+def pat_with(text, root, name):
+    from ..term import subst
+
+    return subst(pat(text), {("n", "ROOT"): root, ("n", "NAME"): name})
+
+
+def enum_and_defaults(ctx):
+    """AssignType members are distinct (an alias would merge two selection modes); documented defaults of assign()."""
+    import ast
+
+    mod = ctx.repo.modules[REL]
+    vals = {}
+    for cls in [n for n in mod.tree.body if isinstance(n, ast.ClassDef) and n.name == "AssignType"]:
+        for st in cls.body:
+            if isinstance(st, ast.Assign) and len(st.targets) == 1 and isinstance(st.targets[0], ast.Name) and isinstance(st.value, ast.Constant):
+                vals[st.targets[0].id] = st.value.value
+    ok = set(vals) >= {"COMMON", "LHS", "RHS", "ALL"} and len(set(vals.values())) == len(vals)
+    ctx.check(ok, "C40.modes-distinct", REL, "AssignType", found=str(vals), required="COMMON, LHS, RHS, ALL are four distinct enum members")
+    fn = Fn(ctx.repo, REL, "assign", "C40")
+    a = fn.fi.node.args
+    d = {k.arg: ast.unparse(v) for k, v in zip(a.kwonlyargs, a.kw_defaults) if v is not None}
+    ok = d.get("fields") == "AssignType.RHS" and d.get("lhs_strict") == "False" and d.get("rhs_strict") == "False"
+    ctx.check(ok, "C40.defaults", fn.site, "assign.defaults", found=str(d), required="fields=AssignType.RHS, lhs_strict=False, rhs_strict=False", nontrivial=False)
+
+
 def pat_sub(text, val):
     from ..term import subst
 
@@ -253,6 +304,7 @@ def pat_sub(text, val):
 
 def check(ctx):
     ctx.use(REL)
+    enum_and_defaults(ctx)
     selection(ctx)
     leaf(ctx)
     union(ctx)
